@@ -1,11 +1,13 @@
 #![allow(dead_code)]
 mod dev;
+mod docq;
 mod engine;
 mod gen;
 mod lspc;
 mod minimize;
 mod oal;
 mod props;
+mod refsem;
 mod tape;
 
 use engine::*;
